@@ -1209,10 +1209,36 @@ func ruleEngineVerdict(c *Ctx) {
 			}
 		}
 		parents := parentMap(fd.Body)
+		// a query wrapped in a function literal that does nothing but return it, called where it stands (a row of a table
+		// of checks after unrolling): the place of the query is the place of that call
+		siteOf := func(call *ast.CallExpr) ast.Node {
+			r, ok := parents[call].(*ast.ReturnStmt)
+			if !ok || len(r.Results) != 1 {
+				return call
+			}
+			blk, ok := parents[r].(*ast.BlockStmt)
+			if !ok || len(blk.List) != 1 {
+				return call
+			}
+			lit, ok := parents[blk].(*ast.FuncLit)
+			if !ok {
+				return call
+			}
+			if outer, ok := parents[lit].(*ast.CallExpr); ok && ast.Unparen(outer.Fun) == ast.Expr(lit) {
+				return outer
+			}
+			if pe, ok := parents[lit].(*ast.ParenExpr); ok {
+				if outer, ok := parents[pe].(*ast.CallExpr); ok {
+					return outer
+				}
+			}
+			return call
+		}
 		for i, call := range calls {
 			n := call.Fun.(*ast.SelectorExpr).Sel.Name
 			key := fork + ".VerifyAndNotifyNewPayload." + n
-			if _, isRet := parents[call].(*ast.ReturnStmt); isRet {
+			site := siteOf(call)
+			if _, isRet := parents[site].(*ast.ReturnStmt); isRet {
 				if i == len(calls)-1 {
 					c.ok(key, call.Pos(), "final engine verdict returned as is")
 				} else {
@@ -1220,7 +1246,7 @@ func ruleEngineVerdict(c *Ctx) {
 				}
 				continue
 			}
-			as, isAs := parents[call].(*ast.AssignStmt)
+			as, isAs := parents[site].(*ast.AssignStmt)
 			if !isAs || len(as.Lhs) != 2 || len(as.Rhs) != 1 {
 				c.unm(key, call.Pos(), "engine result is not assigned to (ok, err)")
 				continue
@@ -1240,7 +1266,7 @@ func ruleEngineVerdict(c *Ctx) {
 			}
 			var next ast.Node
 			if i+1 < len(calls) {
-				next = calls[i+1]
+				next = siteOf(calls[i+1])
 			}
 			outs, reachedNext, okW := outcomesAfter(info, fd.Body, as, map[types.Object]bool{okObj: false}, next)
 			if !okW || len(outs) == 0 {
@@ -1685,7 +1711,31 @@ func ruleMerkleBound(c *Ctx) {
 					break
 				}
 			}
-			if ifs == nil || !neg || !endsInErrorReturn(info, ifs.Body, nil, fd) {
+			// decided on the control-flow graph first: with the verifier's answer taken to be `false` (the answer
+			// possibly kept in a local before it is tested), every path ends in a return of a non-nil error
+			walked := false
+			if outs, okW := outcomesUnder(info, fd.Body, call, false); okW && len(outs) > 0 {
+				walked = true
+				for _, o := range outs {
+					if o.ret == nil || len(o.ret.Results) == 0 {
+						walked = false
+						break
+					}
+					last := ast.Unparen(o.ret.Results[len(o.ret.Results)-1])
+					if isNilExpr(info, last) || !(isErrorT(info.TypeOf(last)) || types.Implements(info.TypeOf(last), errorIface())) {
+						walked = false
+						break
+					}
+					// a plain `return err` could be a nil error: only errors built on the spot count
+					if _, isCall := last.(*ast.CallExpr); !isCall {
+						walked = false
+						break
+					}
+				}
+			}
+			if walked {
+				c.ok(site+".result", call.Pos(), "a failed proof ends every path in an error")
+			} else if ifs == nil || !neg || !endsInErrorReturn(info, ifs.Body, nil, fd) {
 				c.bad(site+".result", call.Pos(), "a failed Merkle proof does not return an error")
 			} else {
 				c.ok(site+".result", call.Pos(), "failed proof => error")
